@@ -1,14 +1,37 @@
-"""Every assumption the generated units may contain. The driver scans each generated unit for
-assume / admit / external_body / assume_specification / uninterp and exits 2 on a hit that is
-not matched by a prefix below. Keep in sync with TRUSTED.md (human-readable reasons)."""
-TRUSTED = [
-    # Vec::extend appends what the iterator yields
-    'assume_specification: <Vec<T, A> as Extend<T>>::extend',
-    "assume_specification: <Vec<T, A> as Extend<&'a T>>::extend",
-    'uninterp: ext_seq',
-    'external_body: ext_seq_vec', 'external_body: ext_seq_vec_ref', 'external_body: ext_seq_skip',
-    # machine fact: slice length is a usize
-    'external_body: axiom_slice_len_bound',
-    # opaque data types / total predicates with no postcondition
-    'external_body: is_', 'external_body: to_string', 'external_body: to_lower',
-]
+"""Every assumption the generated units may contain, with the reason it is acceptable.
+The driver scans each generated unit for assume / admit / external_body / assume_specification /
+uninterp and exits 2 (undecided) on a hit not matched by a key below; the hits of a run are copied
+to coverage.trusted_base of the evidence."""
+TRUSTED_REASONS = {
+    # --- std behaviour, one or two lines each, from the std documentation ---
+    'assume_specification: <Vec<T, A> as Extend<T>>::extend': 'Vec::extend appends what the iterator yields',
+    "assume_specification: <Vec<T, A> as Extend<&'a T>>::extend": 'Vec::extend(&T: Copy) appends copies of what the iterator yields',
+    'uninterp: ext_seq': 'the sequence an IntoIterator yields (axiomatised for Vec, &Vec, Skip<IntoIter>)',
+    'external_body: ext_seq_vec': 'a Vec yields its elements in order',
+    'external_body: ext_seq_vec_ref': '&Vec yields references to its elements in order',
+    'external_body: ext_seq_skip': 'Skip<vec::IntoIter> yields the remaining elements',
+    'external_body: axiom_slice_len_bound': 'machine fact: a slice length is a usize',
+    "assume_specification: <core::slice::Iter<'a, T> as Iterator>::position": 'a hit of position() is an index into what was left of the iterator',
+    'assume_specification: char::is_alphanumeric': 'total pure bool (no postcondition)',
+    'assume_specification: char::is_numeric': 'total pure bool (no postcondition)',
+    'assume_specification: char::is_ascii_alphanumeric': 'total pure bool (no postcondition)',
+    'assume_specification: char::is_ascii_hexdigit': 'total pure bool (no postcondition)',
+    'assume_specification: char::is_ascii_digit': "true exactly for '0'..='9'",
+    # --- opaque data / total predicates with NO postcondition ---
+    'external_body: is_': 'TokenKind/char predicate used only as an arbitrary total bool',
+    'external_body: to_string': 'only inside a panic! message that is proved unreachable',
+    'external_body: to_lower': 'CharStringExt::to_lower: arbitrary Vec<char>',
+    'external_body_struct:': 'opaque data type that plays no role in any proved clause',
+    # --- Harper functions whose contract is ASSUMED in Verus (each is also listed per property
+    #     under `assumptions`, with the bounded harness that checks it, if any) ---
+    'external_body: remove_indices': 'Vec::retain with stateful closure; bounded-rac only',
+    'external_body: lex_tabs': 'take_while().count(); Kani-bounded',
+    'external_body: lex_spaces': 'take_while().count(); Kani-bounded',
+    'external_body: lex_newlines': 'take_while().count(); Kani-bounded',
+    'external_body: lex_hex_number': 'String / from_str_radix; Kani-bounded',
+    'external_body: lex_number': 'str::parse::<f64>; not checked by anything',
+    'external_body: lex_url': 'split/tuple_windows iterator code; Kani-bounded',
+    'external_body: lex_email_address': 'iterator code; Kani-bounded',
+    'external_body: lex_hostname_token': 'iterator code; Kani-bounded',
+}
+TRUSTED = list(TRUSTED_REASONS)
